@@ -60,6 +60,14 @@ Proof.
   eapply Rle_trans; [exact Hd|]. apply Rmax_lub; assumption.
 Qed.
 
+(** 4. the factor 2 in the reported bound cannot be dropped: a game on which half the
+       returned bound is strictly below the true regret (while the bound itself dominates) *)
+Theorem C02_factor_two_needed :
+  forall draw : @oracle RNum,
+  exists (g : @game RNum) budget stop strats b1 b2 ran,
+    WFgame g /\ PerfectRecall g /\ ChanceOK g /    @solve_single RNum g Full draw (@p_vanilla RNum) budget stop = (strats, Some (b1, b2), ran) /    Rmax b1 b2 / 2 < @si_regret RNum (@info RNum g strats) /    @si_regret RNum (@info RNum g strats) <= Rmax b1 b2.
+Proof. exact halved_bound_refuted_closed. Qed.
+
 (** Non-vacuity: matching pennies. *)
 Example C02_example :
   forall (draw : @oracle RNum) (budget : nat) (stop : R -> bool),
@@ -74,4 +82,5 @@ Print Assumptions C02_bound_dominates.
 Print Assumptions C02_each_player.
 Print Assumptions C02_early_stop_sound.
 Print Assumptions C02_true_regret_rate_vanilla.
+Print Assumptions C02_factor_two_needed.
 Print Assumptions C02_example.
